@@ -206,6 +206,25 @@ def cases(ctx):
     # deep family: 4-7 parts over a six-level document with five-item lists
     for sh in (DEEP_QUICK if ctx.quick else DEEP_QUICK + DEEP_MORE):
         out.append(path_case(sh, "d6", L, tag="deep"))
+    # part conditions whose comparison is undefined for some children in unusual ways (`%` on format-like strings raises ValueError /
+    # TypeError / KeyError / OverflowError, modulo by zero): such a child is not selected, resolution goes on
+    for n, (part, docsrc) in enumerate([
+        ("('list', V('has_factor', 2))", "{'l': [u2, '100%', '%', '%d', 'abc', '5%', u3, None, [1], '%(a)s', '%c'], 'a': u1}"),
+        ("('list', V('has_factor', -1))", "{'l': ['%c', u2, '%*d', '%s %s', u3], 'a': u1}"),
+        ("('list', V('factor_of', 12))", "{'l': [u2, 0, 0.0, False, u3, '3', None, [4]], 'a': u1}"),
+        ("('mol', NULL, NULL, ('or', V('has_factor', 3), V('is_instance', str)))", "{'l': ['100%', u2, '%', 9, u3], 'a': u1}"),
+        ("('list', ('xor', V('has_factor', {}), V('truthy')))", "{'l': ['%(a)s', u2, '', '%d', u3], 'a': u1}"),
+    ]):
+        body = f"""
+PT = (('prim', 'l'), {part})
+doc = {docsrc}
+got = build_path(PT).get_data(doc, return_paths=True)
+exp = ref_walk(PT, doc)
+ok = note('a list', type(got) is list) and same_objs('selected nodes', [g[0] for g in got], [e[0] for e in exp])
+ok = ok and same('concrete paths', tx([g[1] for g in got]), tx([e[1] for e in exp]))
+return ok
+"""
+        out.append(mk_case(f"c03.walk.undefined_in_part.{n}", [("u1", U), ("u2", "int"), ("u3", "int")], body, pre=[f"BU({L}, u1, u2, u3)"], stubs=["sym_repr"]))
     # aliased documents: the same container object under several branches
     for sh in (ALIAS_SHAPES[:5] if ctx.quick else ALIAS_SHAPES):
         out.append(path_case(sh, "da", L, tag="alias"))
